@@ -30,6 +30,14 @@ pub const REMOTE_SETTING_WAKER: usize = 10;
 /// `Task::run`: the future has been polled, the outcome is about to be published.
 pub const RUN_POLLED: usize = 11;
 
+/// `Remote::poll`: about to enter the waker-setting critical section.
+pub const REMOTE_BEFORE_SETTING_WAKER: usize = 12;
+/// `Task::drop` (the executor drops the contents of a finished or cancelled task) starts.
+pub const TASK_DROP: usize = 13;
+/// `Remote::poll`: inside the critical section, the task turned out to be finished
+/// or cancelled; about to leave the section without installing a waker.
+pub const REMOTE_ABORT_SETTING_WAKER: usize = 14;
+
 /// A named point of the code; a thread reaching it waits while the point is blocked.
 pub fn sched_point(id: usize) {
     if id >= POINTS {
